@@ -110,9 +110,13 @@ func cmpDocs(a, b *d.Document, opts []SortOpt) int {
 
 // readOracles runs, for a query, the derived read operations against FindAll on the same state.
 // Returns failure descriptions (empty when the properties hold).
-func readOracles(db *clover.DB, q QSpec, bigIntsAway bool) []string {
-	var fails []string
+func readOracles(db *clover.DB, q QSpec, bigIntsAway bool) (fails []string) {
 	bad := func(f string, a ...interface{}) { fails = append(fails, fmt.Sprintf(f, a...)) }
+	defer func() {
+		if r := recover(); r != nil {
+			bad("a read operation panicked: %v", r)
+		}
+	}()
 	if msg := builderImmutable(q); msg != "" {
 		bad("%s", msg)
 	}
